@@ -305,6 +305,11 @@ func c14HistoryLookups(c *ctx, ops []c14Op, probes []string, how string, useLib 
 				key, detail = "remove-absent-not-noop", fmt.Sprintf("step %d %s", i, o)
 			}
 		}
+		if o.kind == "addrel" && key == "" {
+			if _, used := before.GetType(o.n).Rels[o.rel.FromName]; used && err == nil {
+				key, detail = "edit-over-taken-name", fmt.Sprintf("step %d %s returned nil although the type had a relationship of that name", i, o)
+			}
+		}
 		// two-way relationship whose types exist and whose names are free succeeds
 		if o.kind == "addtwoway" {
 			ntw++
@@ -318,6 +323,10 @@ func c14HistoryLookups(c *ctx, ops []c14Op, probes []string, how string, useLib 
 				if err != nil {
 					key, detail = "two-way-rejected", fmt.Sprintf("step %d %s: %v", i, o, err)
 				}
+			}
+			// ... and one that reuses a relationship name on either side is refused (names stay unique)
+			if (used1 || used2) && err == nil && key == "" {
+				key, detail = "edit-over-taken-name", fmt.Sprintf("step %d %s returned nil although %s.%s or %s.%s was a relationship already", i, o, r.FromType, r.FromName, r.ToType, r.ToName)
 			}
 			// whenever the call reports success each side holds the relationship and its inverse
 			if err == nil && !selfInv && key == "" {
@@ -371,7 +380,11 @@ func c14RandOp(r *rng, names []string) c14Op {
 	case 6:
 		return c14Op{kind: "removeattr", n: n, n2: pick(r, names)}
 	case 7, 8:
-		return c14Op{kind: "addrel", n: n, rel: jsonapi.Rel{FromType: n, FromName: pick(r, names), ToOne: r.bool(), ToType: pick(r, names), ToName: pick(r, names), FromOne: r.bool()}}
+		from := n
+		if r.chance(1, 3) {
+			from = pick(r, []string{"", "zz"}) // the caller left FromType empty, or wrong: the type is the one named in the call
+		}
+		return c14Op{kind: "addrel", n: n, rel: jsonapi.Rel{FromType: from, FromName: pick(r, names), ToOne: r.bool(), ToType: pick(r, names), ToName: pick(r, names), FromOne: r.bool()}}
 	case 9:
 		return c14Op{kind: "removerel", n: n, n2: pick(r, names)}
 	default:
